@@ -290,10 +290,11 @@ def _sufficient(case: GE.Case, source: str, minimal, clause: str, feats) -> bool
     return small is not None and _violates(small, source, minimal, clause)
 
 
-def attribute(case: GE.Case, source: str, minimal, clause: str, first=()):
+def attribute(case: GE.Case, source: str, minimal, clause: str, first=(), deep: bool = True):
     """Which planted feature is sufficient: regenerate the model with one planted feature at a time
-    (those in ``first`` first), then with none, and re-run the minimal sequence.  Returns (detail,
-    feature list); 'multi' plus a ddmin-minimal feature set when no single feature suffices."""
+    (those in ``first`` first; then together with an ambient mode), then with none, and re-run the
+    minimal sequence.  Returns (detail, feature list); 'multi' plus a ddmin-minimal feature set
+    (only when ``deep``) if no single feature suffices."""
     planted = list(case.info["planted"])
     order = [f for f in first if f in planted] + [f for f in planted if f not in first]
     for f in order:
@@ -306,18 +307,26 @@ def attribute(case: GE.Case, source: str, minimal, clause: str, first=()):
                     return f"{f}+{mode}", [f, mode]
     if _sufficient(case, source, minimal, clause, []):
         return "base", []
+    if not deep:
+        return "multi", list(case.info["features"])
     feats = ddmin(list(case.info["features"]), lambda sub: _sufficient(case, source, minimal, clause, sub), max_tests=40)
     return "multi", feats
 
 
 def report(ctx, case: GE.Case, source: str, specs, clause: str, message: str) -> None:
+    """Shrink the sequence, find the pass that first breaks the clause and name the mechanism:
+    ``clause|pass|planted feature that alone suffices``.  For serialisation/checker clauses (the
+    checker's message class is part of the clause) the last part is dropped when no single feature
+    suffices; for output and signature differences it is then 'base' or 'multi'."""
     memo = ctx.__dict__.setdefault("_c05_memo", {})
     minimal, culprit = shrink(case, source, specs, clause)
     seen = memo.setdefault((clause, culprit[0]), [])
-    detail, feats = attribute(case, source, minimal, clause, first=seen)
+    needs_detail = clause.startswith(("outputs-differ", "io-changed"))
+    detail, feats = attribute(case, source, minimal, clause, first=seen, deep=needs_detail)
     if detail not in seen:
         seen.append(detail)
-    signature = f"{clause}|{culprit[0]}|{detail}"
+    single = detail in GE.FEATURES  # one planted feature alone reproduces it
+    signature = f"{clause}|{culprit[0]}" + (f"|{detail}" if needs_detail or single else "")
     replay = {
         "seed": case.info["seed"], "size": case.info["size"], "features": feats, "source": source,
         "seq": minimal, "clause": clause, "signature": signature,
@@ -332,15 +341,17 @@ def report(ctx, case: GE.Case, source: str, specs, clause: str, message: str) ->
 # ---- driver -------------------------------------------------------------------------------------------------
 def plan(tier: str) -> dict:
     quick = tier == "quick"
-    floors = {"pass_ok:" + n: (25 if quick else 400) for n in PASS_VARIANTS}
-    floors.update({"compared:ref": 1500 if quick else 30000, "compared:ort": 1500 if quick else 30000,
-                   "checker_decided": 1000 if quick else 20000, "models_admitted": 300 if quick else 6000})
+    # ~75 ms CPU per case (model + 3 sequences) on an idle core; on a loaded machine the shards stop at
+    # budget_s, so the floors are what a run at ~1/8 of the idle throughput still reaches
+    floors = {"pass_ok:" + n: (25 if quick else 250) for n in PASS_VARIANTS}
+    floors.update({"compared:ref": 600 if quick else 8000, "compared:ort": 800 if quick else 10000,
+                   "checker_decided": 500 if quick else 6000, "models_admitted": 150 if quick else 2000})
     return {
-        "cases": 2400 if quick else 40000,
+        "cases": 8000 if quick else 110000,
         "shards": 16,
-        "budget_s": 40 if quick else 480,
+        "budget_s": 38 if quick else 470,
         "floors": floors,
-        "min_nontrivial": 200 if quick else 4000,
+        "min_nontrivial": 200 if quick else 2500,
         "params": {"sequences": 3 if quick else 4},
     }
 
